@@ -114,6 +114,12 @@ def rrun (info : Nat → ClsInfo) (warnErr : Bool) : RState → Nat → List ROp
   | s, _, [] => s
   | s, i, op :: ops => rrun info warnErr (rstep info warnErr s i op).1 (i + 1) ops
 
+/-- run a history in which the warnings filter is part of each call's environment (it can change
+between two calls: `warnings.simplefilter` is process state the registry does not own) -/
+def rrunW (info : Nat → ClsInfo) : RState → Nat → List (Bool × ROp) → RState
+  | s, _, [] => s
+  | s, i, (w, op) :: ops => rrunW info (rstep info w s i op).1 (i + 1) ops
+
 /-- what flattening does with an instance of `cls` in namespace `ns` (either variant) -/
 inductive RObs where
   | custom (rid : Nat)
